@@ -90,6 +90,16 @@ func load(rootDmap *sync.Map, d *Directory, subPath, rootPath string) error {
 				}
 			}
 		} else if filepath.Ext(leafPath) == ".bin" {
+			// A year file shorter than its header is what a crash between the creation of the file and
+			// the write of its header leaves behind. The header is written before any data, so the file
+			// holds nothing; reading its header later would terminate the server (log.Fatal).
+			if fi, err2 := dirname.Info(); err2 == nil && fi.Size() < io.Headersize {
+				log.Warn(fmt.Sprintf("removing incomplete year file %s (%d bytes)", leafPath, fi.Size()))
+				if err2 := os.Remove(leafPath); err2 != nil {
+					return fmt.Errorf("remove incomplete year file %s: %w", leafPath, err2)
+				}
+				continue
+			}
 			rootDmap.Store(d.pathToItemName, d)
 			if d.datafile == nil {
 				d.datafile = make(map[string]*io.TimeBucketInfo)
